@@ -51,7 +51,9 @@ DESIGN_REF = "BUILDER_GUIDE/Extension checks (X03)"
 
 JVM = ["-XX:+UseSerialGC", "-XX:-UseParallelGC"]
 MC_QUICK = ["q1_iour", "qt_iour", "qj_iour", "qj_poll", "qo_iour"]
-MC_THOROUGH = MC_QUICK + ["q1_poll", "qt_poll", "qo_poll", "a_iour", "a_poll", "b_iour", "b_poll", "c_iour", "c_poll", "d_iour", "d_poll"]
+# (liveness on a, bl, d_iour; b, c, d_poll are the large safety-only configurations)
+MC_THOROUGH = MC_QUICK + ["q1_poll", "qt_poll", "qo_poll", "a_iour", "a_poll", "bl_iour", "bl_poll", "b_iour", "b_poll",
+                          "c_iour", "c_poll", "d_iour", "d_poll"]
 # (config, invariant that must be violated)
 CTL_QUICK = [("ctl_clear_iour", "CtlClearAfterPoll"), ("ctl_ignore_iour", "CtlIgnoreFlush"),
              ("fnd_dev1_iour", "FindingStrict"), ("fnd_dev2_iour", "RepFlushSeesCompleted")]
@@ -145,8 +147,6 @@ def _split(cases, n, tmp, stem):
 
 
 def run(run, tier, replay):
-    for m in ("Wakeup", "CompatLoop", "MC_CompatLoop", "Gen_CompatLoop"):
-        vlib.sany(m)
     tmp = vlib.scratch()
     build_err = []
 
@@ -159,6 +159,7 @@ def run(run, tier, replay):
     bt.start()
     try:
         if replay:
+            vlib.sany("Gen_CompatLoop")
             obj = json.load(open(replay))
             case = obj["replay"]
             bt.join()
@@ -193,6 +194,10 @@ def run(run, tier, replay):
         gens = GEN + (GEN_THOROUGH_ONLY if thorough else [])
         mult = 8 if thorough else 1
         with cf.ThreadPoolExecutor(4) as ex:
+            # (the two top modules pull in CompatLoop and Wakeup)
+            f_sany = [ex.submit(vlib.sany, m) for m in ("MC_CompatLoop", "Gen_CompatLoop")]
+            for f in f_sany:
+                f.result()
             f_mc = [ex.submit(_mc, n, 3000) for n in mcs]
             f_ctl = [ex.submit(_ctl, c, 900) for c in ctls]
             f_gen = [ex.submit(_gen, (((n, k * mult), i)), vlib.seed()) for i, (n, k) in enumerate(gens)]
@@ -278,12 +283,16 @@ def run(run, tier, replay):
                 pseen.add(s)
                 progs.append({"prog": c["prog"]})
         progs += [{"prog": p} for p in EXTRA_PROGS]
+        if not thorough:
+            # a job nobody waits for meets the recorded deviation 2 in about every third free run, each costing a
+            # watchdog: the quick tier leaves those programs to the steered leg
+            progs = [p for p in progs if "none" not in (p["prog"]["jobs"] or {}).values()]
         pp = os.path.join(tmp, "progs.jsonl")
         with open(pp, "w") as f:
             for p in progs:
                 f.write(json.dumps(p) + "\n")
-        rc, out, err = xlib.run_bin("x03_stress", [pp, "--seed", vlib.seed(), "--iters", 30 if thorough else 2,
-                                                   "--watchdog-ms", 20000 if thorough else 10000],
+        rc, out, err = xlib.run_bin("x03_stress", [pp, "--seed", vlib.seed(), "--iters", 12 if thorough else 2,
+                                                   "--watchdog-ms", 12000],
                                     timeout=3000 if thorough else 600, check=False)
         lines = vlib.jsonl(out)
         summ = [l for l in lines if l.get("type") == "summary"]
